@@ -274,7 +274,8 @@ def loop_rule(index, rep, rule="C08.LOOP", reloc_rule="C08.LOOP"):
         it.getitem = getitem
         obj = Obj(None, {"KCALS_GROWN": PList([]), "NO_RELOCATION_KCALS_GROWN": PList([]), "OG_KCAL_EXPONENT": e_}, "self")
         env = {"self": obj, iv: Rat.atom(("i",))}
-        it.exec_block(loop.body, env)
+        it.exec_block([s_ for s_ in loop.body if not isinstance(s_, ast.Assert)], env)
+        it.last_env = env
         return obj, idxs
 
     try:
@@ -306,8 +307,33 @@ def loop_rule(index, rep, rule="C08.LOOP", reloc_rule="C08.LOOP"):
                   "the relocated series is not m*r for r > 1 and m*r^e otherwise", loc=loc(OC, loop))
     if n < 2:
         raise AnalysisError("crop loop: expected both arms")
-    asserts = [norm_src(a.test) for a in walk_no_nested(loop) if isinstance(a, ast.Assert)]
-    rep.check("self.KCALS_GROWN[-1] >= month_kcals * baseline_reduction" in asserts, reloc_rule, "assert relocated >= not relocated",
+    # the in-loop assertion, evaluated in the same abstract runs: (last relocated entry) >= month x ratio
+    okas = False
+    for a_ in [x for x in walk_no_nested(loop) if isinstance(x, ast.Assert)]:
+        t_ = a_.test
+        if not (isinstance(t_, ast.Compare) and len(t_.ops) == 1 and isinstance(t_.ops[0], ast.GtE)):
+            continue
+        good = 0
+        for _, dec, res, it in envs:
+            if isinstance(res, Abort):
+                continue
+            obj, idxs = res
+            try:
+                lhs = it.to_rat(it.eval(t_.left, it.last_env))
+                rhs = it.to_rat(it.eval(t_.comparators[0], it.last_env))
+            except Exception:
+                good = -1
+                break
+            grown = obj.attrs["KCALS_GROWN"].items
+            if len(grown) == 1 and lhs == it.to_rat(grown[0]) and rhs == m * r:
+                good += 1
+            else:
+                good = -1
+                break
+        if good >= 2:
+            okas = True
+            break
+    rep.check(okas, reloc_rule, "assert relocated >= not relocated",
               "the in-loop assertion that relocation never lowers a month's output is gone", loc=loc(OC, loop))
     rep.require_min(rule, 6)
 
@@ -363,6 +389,20 @@ def form_crops(index, rep):
     production_form(index, rep, rule)
 
 
+def produced_var(fn):
+    """name of the local that carries the produced series into the Food(...) construction of set_crop_production_minus_greenhouse_area"""
+    params = {a.arg for a in fn.args.args}
+    foods = [c for c in ast.walk(fn) if isinstance(c, ast.Call) and dotted(c.func) == "Food"]
+    if len(foods) != 1:
+        raise AnalysisError("set_crop_production_minus_greenhouse_area: the production Food(...) construction was not found")
+    kc = [k.value for k in foods[0].keywords if k.arg == "kcals"] or (foods[0].args[:1])
+    stored = {n.id for n in ast.walk(fn) if isinstance(n, ast.Name) and isinstance(n.ctx, ast.Store)}
+    names = {n.id for n in ast.walk(kc[0]) if isinstance(n, ast.Name) and n.id in stored and n.id not in params} if kc else set()
+    if len(names) != 1:
+        raise AnalysisError(f"production Food(...): the produced series is not one local variable ({sorted(names)})")
+    return names.pop()
+
+
 def production_form(index, rep, rule):
     """production = crops_produced x (1 - distribution waste): the rest of set_crop_production_minus_greenhouse_area is evaluated
     with crops_produced opaque (shared by C08.FORM and C09.GH)"""
@@ -381,7 +421,8 @@ def production_form(index, rep, rule):
 
         it.call_hook = hook
         obj = Obj(cls, {"CROP_WASTE_DISTRIBUTION": Rat.atom(("Wd",)), "OG_FRACTION_FAT": Rat.atom(("ff",)), "OG_FRACTION_PROTEIN": Rat.atom(("fp",))}, "self")
-        env = {"self": obj, "constants_for_params": Path(("c",)), "greenhouse_fraction_area": gfa, "crops_produced": Rat.atom(("CP",))}
+        P_ = [a.arg for a in fn.args.args]
+        env = {"self": obj, P_[1]: Path(("c",)), P_[2]: gfa, produced_var(fn): Rat.atom(("CP",))}
         first = next((i for i, st in enumerate(fn.body) if any(isinstance(c, ast.Call) and dotted(c.func) == "Food" for c in ast.walk(st))), 1)
         rest = [st for st in fn.body[first:] if not isinstance(st, ast.Assert)]
         it.exec_block(rest, env)
@@ -807,25 +848,59 @@ def delay_greenhouse(index, rep, area_rule="C08.DELAY", len_rule="C08.LEN"):
 
 
 def delay_seaweed(index, rep):
+    """seaweed farm area: the initial area for DELAY[SEAWEED_MONTHS] months, then a linear ramp (element i = initial + i x new area per month,
+    new area per month = global rate x country share), each entry capped at the maximum area, cut to NMONTHS - evaluated elementwise"""
+    from .rat import feasible
+    from .symx import EIDX
     rule = "C08.DELAY"
-    fn = index.func(SW, "Seaweed.get_built_area")
-    txt = {norm_src(s.targets[0]): norm_src(s.value) for s in walk_no_nested(fn) if isinstance(s, ast.Assign)}
-    sd = [s for s in walk_no_nested(fn) if isinstance(s, ast.Assign) and norm_src(s.targets[0]) == "sd"]
-    ok = any(norm_src(s.value) == "[self.INITIAL_BUILT_SEAWEED_AREA] * constants_for_params['DELAY']['SEAWEED_MONTHS']" for s in sd)
-    rep.check(ok, rule, "seaweed: built area constant for the configured delay", "the farm area is not held at its initial value for DELAY[SEAWEED_MONTHS] months",
+    init, mx, glob = Rat.atom(("init",)), Rat.atom(("max",)), Rat.atom(("global_rate",))
+    attrs = {"INITIAL_BUILT_SEAWEED_AREA": init, "MAXIMUM_SEAWEED_AREA": mx, "SEAWEED_NEW_AREA_PER_MONTH_GLOBAL": glob, "NMONTHS": Rat.atom(NSYM)}
+    res, fn = run_method(index, SW, "Seaweed", "get_built_area", attrs, [Path(("c",))], decisions={"c.ADD_SEAWEED": True})
+    neg = {"<": ">=", "<=": ">", ">": "<=", ">=": "<", "==": "!=", "!=": "=="}
+    delay = K_(("c", "DELAY", "SEAWEED_MONTHS"))
+    share = K_(("c", "SEAWEED_NEW_AREA_FRACTION"))
+    i = Rat.atom(EIDX)
+    n = 0
+    bad = {}
+    for dec, r, obj, it in res:
+        cons = [(it.pred_exprs[k][0], it.pred_exprs[k][1] if v else neg[it.pred_exprs[k][1]]) for k, v in dec.items() if k in it.pred_exprs]
+        if not feasible(cons + [(init, ">="), (mx, ">="), (glob, ">="), (share, ">="), (i, ">=")]):
+            continue
+        area = obj.attrs.get("built_area")
+        segs = _segs(area) if area is not None else None
+        if not segs or len(segs) != 2:
+            n += 1
+            bad.setdefault("shape", f"built area is not [initial] x delay followed by a ramp ({len(segs) if segs else 0} segments)")
+            continue
+        n += 1
+        (f1, n1), (f2, n2) = segs
+        f1, f2 = it.to_rat(f1), it.to_rat(f2)
+        capped1 = not feasible(cons + [(init - mx, "<=")])      # conditions imply initial > max
+        capped2 = not feasible(cons + [(init + i * glob * share - mx, "<=")])
+        free2 = not feasible(cons + [(init + i * glob * share - mx, ">")])
+        if not (it.to_rat(n1) == delay and (f1 == init or (capped1 and f1 == mx))):
+            bad.setdefault("delay", f"first {n1} entries are {f1}")
+        want2 = mx if capped2 else (init + i * glob * share if free2 else None)
+        if want2 is None or f2 != want2:
+            bad.setdefault("ramp" if not capped2 else "cap", f"entry i of the ramp is {f2}")
+        if not (f1 == init or f1 == mx):
+            bad.setdefault("cap", f"held entries are {f1}")
+        tr = getattr(area, "truncated_to", None)
+        if not (tr is not None and it.to_rat(tr) == Rat.atom(NSYM) and it.to_rat(n2) == Rat.atom(NSYM)):
+            bad.setdefault("len", "not cut to NMONTHS from a ramp of NMONTHS entries")
+    if n < 1:
+        raise AnalysisError("seaweed built area: no feasible path analysed")
+    if n < 2 and not bad:
+        bad["cap"] = "no path on which an entry above the maximum is replaced by the maximum"
+    rep.check("shape" not in bad and "delay" not in bad, rule, "seaweed: built area constant for the configured delay",
+              "the farm area is not held at its initial value for DELAY[SEAWEED_MONTHS] months: " + bad.get("delay", bad.get("shape", "")), loc=loc(SW, fn))
+    rep.check("ramp" not in bad, rule, "seaweed: then a linear ramp from the initial area by new-area-per-month",
+              "after the delay entry i is not initial area + i x (global new area per month x country share): " + bad.get("ramp", ""), loc=loc(SW, fn))
+    rep.check("cap" not in bad, rule, "seaweed: capped at the maximum area", "the built area is not capped at MAXIMUM_SEAWEED_AREA entry by entry: " + bad.get("cap", ""),
               loc=loc(SW, fn))
-    bal = txt.get("built_area_long", "")
-    it = Interp()
-    ok = bal.startswith("np.append(np.array(sd), np.linspace(self.INITIAL_BUILT_SEAWEED_AREA, (self.NMONTHS - 1) * SEAWEED_NEW_AREA_PER_MONTH + "
-                        "self.INITIAL_BUILT_SEAWEED_AREA, self.NMONTHS))")
-    rep.check(ok, rule, "seaweed: then a linear ramp from the initial area by new-area-per-month",
-              "after the delay the area is not a linear ramp starting at the initial area with slope new area per month (non-decreasing)", loc=loc(SW, fn), detail=bal[:160])
-    caps = [s for s in walk_no_nested(fn) if isinstance(s, ast.Assign) and isinstance(s.targets[0], ast.Subscript)
-            and norm_src(s.targets[0]) == "built_area_long[built_area_long > self.MAXIMUM_SEAWEED_AREA]" and norm_src(s.value) == "self.MAXIMUM_SEAWEED_AREA"]
-    rep.check(len(caps) == 1, rule, "seaweed: capped at the maximum area", "the built area is not capped at MAXIMUM_SEAWEED_AREA", loc=loc(SW, fn))
-    rep.check(txt.get("built_area") == "built_area_long[:self.NMONTHS]", "C08.LEN", "seaweed area: cut to NMONTHS", "built area is not cut to NMONTHS", loc=loc(SW, fn))
-    rep.check(txt.get("SEAWEED_NEW_AREA_PER_MONTH") == "self.SEAWEED_NEW_AREA_PER_MONTH_GLOBAL * constants_for_params['SEAWEED_NEW_AREA_FRACTION']", "C08.FORM",
-              "seaweed: new area per month linear in the country share", "new area per month is not the global rate x the country's share", loc=loc(SW, fn))
+    rep.check("len" not in bad, "C08.LEN", "seaweed area: cut to NMONTHS", "built area is not cut to NMONTHS", loc=loc(SW, fn))
+    rep.check("ramp" not in bad, "C08.FORM", "seaweed: new area per month linear in the country share",
+              "new area per month is not the global rate x the country's share", loc=loc(SW, fn))
 
 
 def growth(index, rep):
@@ -833,17 +908,34 @@ def growth(index, rep):
     the 30-day compounding (1 + d/100)^30"""
     rule = "C08.GROWTH"
     fn = index.func(SW, "Seaweed.get_growth_rates")
-    st = [s for s in walk_no_nested(fn) if isinstance(s, ast.Assign) and norm_src(s.targets[0]) == "sorted_monthly_percents"]
-    if len(st) != 1:
-        raise AnalysisError("get_growth_rates: sorted_monthly_percents not found")
-    it = Interp()
+    from .core import Inliner
+    rets = [r for r in fn.body if isinstance(r, ast.Return)]
+    if len(rets) != 1:
+        raise AnalysisError("get_growth_rates: single return not found")
+    inl = Inliner(fn)
+    expr = inl.expr(rets[0].value)
+    # the daily series (sorted by column) is whatever array of SEAWEED_GROWTH_PER_DAY values the expression is built from: abstract it to `d`
     d = Rat.atom(("d",))
+    daily = [n_ for n_ in ast.walk(expr) if isinstance(n_, ast.Call) and dotted(n_.func) in ("np.array", "np.asarray") and "SEAWEED_GROWTH_PER_DAY" in norm_src(n_)]
+    if not daily:
+        raise AnalysisError("get_growth_rates: the array of daily growth percentages was not found in the returned expression")
+    it = Interp()
+    target = daily[0]
+
+    class Sub(ast.NodeTransformer):
+        def visit_Call(self, node):
+            if node is target:
+                return ast.Name(id="__daily__", ctx=ast.Load())
+            return self.generic_visit(node)
+
+    expr2 = Sub().visit(expr)
     try:
-        g = it.to_rat(it.eval(st[0].value, {"sorted_daily_percents": d}))
+        g = it.to_rat(it.eval(expr2, {"__daily__": d}))
     except Exception as e:
         raise AnalysisError(f"monthly growth expression outside the fragment: {e!r}")
-    rets = [norm_src(r.value) for r in fn.body if isinstance(r, ast.Return)]
-    rep.check(rets == ["sorted_monthly_percents"], rule, "supplier returns the computed series", "the computed series is not what is returned", loc=loc(SW, fn))
+    stored = [s_ for s_ in walk_no_nested(fn) if isinstance(s_, ast.Assign) and norm_src(s_.targets[0]) == "self.growth_rates_monthly"]
+    rep.check(all(inl.src(s_.value) == inl.src(rets[0].value) for s_ in stored), rule, "supplier returns the computed series",
+              "the series stored on the object is not the one returned", loc=loc(SW, fn))
     # consumer: coefficient of wet[m-1] in the LP ledger as a function of the supplied value
     from .lpdb import LPDB
     from .symx import Cmp
@@ -874,8 +966,20 @@ def growth(index, rep):
         raise AnalysisError("no seaweed ledger template")
     # the series handed to the optimiser is this one (time_consts['growth_rates_monthly'])
     p = index.func(PARAMS, "Parameters.set_seaweed_params")
-    t_ = norm_src(p)
-    rep.check("growth_rates = seaweed.get_growth_rates(constants_inputs)" in t_, rule, "supplier wired to the optimiser input",
+    inl_p = Inliner(p)
+    prets = [r for r in p.body if isinstance(r, ast.Return) and isinstance(r.value, ast.Tuple)]
+    slot = None
+    for r in prets:
+        for k, e in enumerate(r.value.elts):
+            t_ = inl_p.src(e)
+            if t_.startswith("Seaweed(") and ".get_growth_rates(" in t_:
+                slot = k
+    f1 = index.func(PARAMS, "Parameters.compute_parameters_first_round")
+    inl_f = Inliner(f1)
+    sts = [s_ for s_ in walk_no_nested(f1) if isinstance(s_, ast.Assign) and isinstance(s_.targets[0], ast.Subscript)
+           and str_const(s_.targets[0].slice) == "growth_rates_monthly"]
+    okw = slot is not None and len(sts) == 1 and inl_f.src(sts[0].value).startswith("self.set_seaweed_params(") and inl_f.src(sts[0].value).endswith(f"[{slot}]")
+    rep.check(okw, rule, "supplier wired to the optimiser input",
               "growth_rates_monthly is not the series returned by Seaweed.get_growth_rates", loc=loc(PARAMS, p))
 
 
@@ -925,8 +1029,10 @@ def unitlit(index, rep):
 
     def assigns(fn):
         out = {}
+        rets = [norm_src(r.value) for r in walk_no_nested(fn) if isinstance(r, ast.Return) and isinstance(r.value, ast.Name)]
+        base = rets[-1] if rets else "constants_for_params"
         for s in walk_no_nested(fn):
-            if isinstance(s, ast.Assign) and isinstance(s.targets[0], ast.Subscript) and norm_src(s.targets[0].value) == "constants_for_params" \
+            if isinstance(s, ast.Assign) and isinstance(s.targets[0], ast.Subscript) and norm_src(s.targets[0].value) == base \
                     and str_const(s.targets[0].slice):
                 # skip assignments under `if <literal False flag>:`
                 p = getattr(s, "_parent", None)
